@@ -78,6 +78,9 @@ def sim_run(ch, workdir, spec, prof, *, cache=None, max_concurrent=None, plan_pa
     env.add_line_probe(_sub, "self.errored[job.state_index] = self.running.pop(index)[0]", "running_to_errored")
     env.add_line_probe(_sub, "await asyncio.sleep(1)", "stall_branch_entered")
     env.add_line_probe(_sub, "elif job.checksum not in futured:", "futured_checked")
+    import pydra.engine.job as _jobmod
+
+    env.add_line_probe(_jobmod, "await asyncio.sleep(self.timeout)", "pydrafilelock_waited")
     e = {}
     if plan_path:
         e["VERIF_FAULTPLAN"] = plan_path
@@ -141,6 +144,8 @@ def node_of_key(key):
 
 def top_node(label):
     """top-level workflow node a job label belongs to (nested specs use '<name>i<k>')"""
+    if label.startswith("dwi"):
+        return "dw0"
     return label.split("i", 1)[0]
 
 
